@@ -1,4 +1,170 @@
-import Fpy.Model.Lang.Core
+/-
+C07 — `simplify` (constant folding, copy propagation, dead-code elimination) never changes what a
+program returns.
+
+Approach: TRANSLATION VALIDATION at the level of the model.  `Fpy.Xform.simB R p' p`
+(Model/Lang/Sim.lean) is an executable checker: `p'` is `p` up to the variable correspondence `R`.
+`sim_sound` below is its soundness: accepted programs started in `R`-related environments have
+the same outcome at every fuel.  Each rewrite of the real passes is then an instance:
+
+* dead-code shapes that hold in every state (`dce_shapes_sound`, FULL): `if True/False`, `while False`,
+  `assert True`, `pass`, code after `return` — exactly the cases of `dead_code._Eliminator`;
+* `dead_assign_elim` (FULL for heap-neutral right-hand sides): `x = e; rest ≡ rest` when `x` is not
+  read afterwards and `e` is pure and total in the model's sense; `dead_assign_elim_returns` is the
+  direction the property states and needs no totality;
+* `self_assign_elim` (FULL): `x = x` with `x` bound;
+* `copy_prop_sound` (FULL): after `x = y`, replacing reads of `x` by `y` (all or some of them) in a
+  block that rebinds neither — the repaired single-definition condition of `copy_propagate.py`;
+  `copy_prop_rejects_redefinition` shows the checker refusing the F13 shape;
+* `const_fold_assign_partial` (PARTIAL): replacing a right-hand side / returned expression by a literal
+  is sound when the expression evaluates to that literal in the state at hand; what is missing is a
+  model of `PartialEval` deciding that fact statically (which context is active, which names are
+  constant) — that part of C07 rests on the differential runs of harness/c07.py.
+-/
+import Fpy.Proof.LangEntry
 namespace Fpy.Props.C07
-theorem placeholder : True := trivial
+open Fpy Fpy.Lang Fpy.Xform
+
+/-- soundness of the validator: same outcome at EVERY fuel (`RelM (OutRel R)`: same error, or same
+returned value and heap, or `R`-related final environments and the same heap) -/
+theorem sim_sound (Φ : Funs) (R : VRel) (n : Nat) {σ1 σ2 : Env} {p' p : List Stmt} (hinv : Inv R σ1 σ2)
+    (h : simB R p' p = true) (μ : Heap) (C : Ctx) :
+    RelM (OutRel R) (evalB Φ n σ1 μ C p') (evalB Φ n σ2 μ C p) :=
+  (simAt Φ R n).evalB σ1 σ2 p' p hinv h μ C
+
+/-- … hence the same `Returns` -/
+theorem sim_returns (Φ : Funs) (R : VRel) {σ1 σ2 : Env} {p' p : List Stmt} (hinv : Inv R σ1 σ2)
+    (h : simB R p' p = true) (μ : Heap) (C : Ctx) (v : Val) (μ' : Heap) :
+    Returns Φ σ1 μ C p' v μ' ↔ Returns Φ σ2 μ C p v μ' := Fpy.Xform.sim_returns hinv h μ C v μ'
+
+/-- evaluation depends only on the variables an expression reads -/
+theorem evalE_congr_env (Φ : Funs) (n : Nat) {σ1 σ2 : Env} (μ : Heap) (C : Ctx) (e : Expr)
+    (h : ∀ z ∈ readsE e, σ1.get? z = σ2.get? z) : evalE Φ n σ1 μ C e = evalE Φ n σ2 μ C e :=
+  Fpy.Xform.evalE_congr_env Φ n μ C e h
+
+/-- substitution lemma: `e[y/x]` evaluates like `e` where `x` and `y` hold the same value -/
+theorem evalE_subst (Φ : Funs) (n : Nat) {σ : Env} (μ : Heap) (C : Ctx) {x y : String} (e : Expr)
+    (hxy : σ.get? x = σ.get? y) (hx : x ∉ bvE e) (hy : y ∉ bvE e) :
+    evalE Φ n σ μ C (renE (sub1 x y) e) = evalE Φ n σ μ C e := Fpy.Xform.evalE_subst Φ n μ C e hxy hx hy
+
+/-- the state-independent dead-code shapes -/
+theorem dce_shapes_sound (Φ : Funs) (A B rest : List Stmt) (e : Expr) :
+    BEquiv Φ (.ifte (.bool true) A B :: rest) (A ++ rest) ∧
+    BEquiv Φ (.ifte (.bool false) A B :: rest) (B ++ rest) ∧
+    BEquiv Φ (.if1 (.bool true) A :: rest) (A ++ rest) ∧
+    BEquiv Φ (.if1 (.bool false) A :: rest) rest ∧
+    BEquiv Φ (.while (.bool false) A :: rest) rest ∧
+    BEquiv Φ (.assert (.bool true) :: rest) rest ∧
+    BEquiv Φ (.pass :: rest) rest ∧
+    BEquiv Φ (.ret e :: rest) [.ret e] :=
+  ⟨if_true_fold Φ A B rest, if_false_fold Φ A B rest, if1_true_fold Φ A rest, if1_false_elim Φ A rest,
+    while_false_elim Φ A rest, assert_true_elim Φ rest, pass_elim Φ rest, after_return_elim Φ e rest⟩
+
+/-- the remaining shapes of `dead_code._Eliminator`: empty branches, dead expression statements, empty
+or doubled `with` blocks (the first two need no side condition, the others the purity the pass checks) -/
+theorem dce_shapes_more (Φ : Funs) (c : Expr) (A B rest : List Stmt) (D D' : Ctx) :
+    SEquiv Φ (.ifte c A [.pass]) (.if1 c A) ∧
+    SEquiv Φ (.ifte c [.pass] B) (.if1 (.not c) B) ∧
+    BEquiv Φ (.with (.ctxLit D) none [.pass] :: rest) rest ∧
+    SEquiv Φ (.with (.ctxLit D) none [.with (.ctxLit D') none A]) (.with (.ctxLit D') none A) :=
+  ⟨ifte_else_pass Φ c A, ifte_then_pass Φ c B, with_pass_elim Φ D rest, with_with_elim Φ D D' A⟩
+
+theorem effect_elim {Φ : Funs} {σ : Env} {μ : Heap} {C : Ctx} {e : Expr} (hp : PureTotal Φ σ μ C e) (rest : List Stmt) :
+    evalBω Φ σ μ C (.effect e :: rest) = evalBω Φ σ μ C rest := Fpy.Xform.effect_elim hp rest
+
+theorem if1_pass_elim {Φ : Funs} {σ : Env} {μ : Heap} {C : Ctx} {c : Expr} {b : Bool}
+    (hp : evalEω Φ σ μ C c = .ok (.bool b, μ)) (rest : List Stmt) :
+    evalBω Φ σ μ C (.if1 c [.pass] :: rest) = evalBω Φ σ μ C rest := Fpy.Xform.if1_pass_elim hp rest
+
+/-- from blocks to `f(*args)` versus `simplify(f)(*args)`: functions with equivalent bodies return the same -/
+theorem entry_equiv {Φ : Funs} {f f' : String} {fd fd' : FuncDef} (hf : Φ.find? f = some fd) (hf' : Φ.find? f' = some fd')
+    (hp : fd.params = fd'.params) (hc : fd.ctx = fd'.ctx) (hb : BEquiv Φ fd.body fd'.body)
+    (args : List Val) (μ : Heap) (ctx : Option Ctx) (v : Val) (μ' : Heap) :
+    (∃ n, callEntry Φ n f args μ ctx = .ok (v, μ')) ↔ (∃ n, callEntry Φ n f' args μ ctx = .ok (v, μ')) :=
+  Fpy.Xform.entry_equiv hf hf' hp hc hb args μ ctx v μ'
+
+/-- `BEquiv` is what the property needs and more -/
+theorem bequiv_returns {Φ : Funs} {ss ss' : List Stmt} (h : BEquiv Φ ss ss') (σ : Env) (μ : Heap) (C : Ctx) (v : Val) (μ' : Heap) :
+    Returns Φ σ μ C ss v μ' ↔ Returns Φ σ μ C ss' v μ' := h.returns
+
+/-- dead assignment: `x` not read afterwards (so not returned), right-hand side pure and total -/
+theorem dead_assign_elim {Φ : Funs} {x : String} {e : Expr} {rest : List Stmt} (hx : x ∉ readsB rest)
+    {σ : Env} {μ : Heap} {C : Ctx} (hp : PureTotal Φ σ μ C e) (w : Val) (μ' : Heap) :
+    Returns Φ σ μ C (.assign (.var x) e :: rest) w μ' ↔ Returns Φ σ μ C rest w μ' :=
+  dead_assign_elim_syn hx hp w μ'
+
+/-- … the direction C07 states, without totality -/
+theorem dead_assign_elim_returns {Φ : Funs} {x : String} {e : Expr} {rest : List Stmt} (hx : x ∉ readsB rest)
+    {σ : Env} {μ : Heap} {C : Ctx} (hp : HeapNeutral Φ σ μ C e) (w : Val) (μ' : Heap) :
+    Returns Φ σ μ C (.assign (.var x) e :: rest) w μ' → Returns Φ σ μ C rest w μ' :=
+  dead_assign_elim_syn_returns hx hp w μ'
+
+/-- a bound variable or a literal is pure and total -/
+theorem simple_is_pureTotal {Φ : Funs} {σ : Env} {μ : Heap} {C : Ctx} {e : Expr} (hs : simpleE e = true)
+    (hb : ∀ z ∈ readsE e, (σ.get? z).isSome = true) : PureTotal Φ σ μ C e := pureTotal_of_simple hs hb
+
+theorem self_assign_elim {Φ : Funs} {x : String} {rest : List Stmt} {σ : Env} {μ : Heap} {C : Ctx} {v : Val}
+    (hb : σ.get? x = some v) (w : Val) (μ' : Heap) :
+    Returns Φ σ μ C (.assign (.var x) (.var x) :: rest) w μ' ↔ Returns Φ σ μ C rest w μ' :=
+  self_assign_elim_syn hb w μ'
+
+/-- copy propagation, validator form: any `ss'` the checker accepts against `ss` under
+"identity on `xs`, and `y` may stand for `x`" -/
+theorem copy_prop_sound {Φ : Funs} {xs : List String} {x y : String} {ss ss' : List Stmt}
+    (h : simB (cpRel xs x y) ss' ss = true) (σ : Env) (μ : Heap) (C : Ctx) (w : Val) (μ' : Heap) :
+    Returns Φ σ μ C (.assign (.var x) (.var y) :: ss') w μ' ↔ Returns Φ σ μ C (.assign (.var x) (.var y) :: ss) w μ' :=
+  Fpy.Xform.copy_prop_sound h σ μ C w μ'
+
+/-- copy propagation, substitution form -/
+theorem copy_prop_subst_sound {Φ : Funs} {x y : String} {ss : List Stmt} (hx : x ∉ bvB ss) (hy : y ∉ bvB ss)
+    (σ : Env) (μ : Heap) (C : Ctx) (w : Val) (μ' : Heap) :
+    Returns Φ σ μ C (.assign (.var x) (.var y) :: substB x y ss) w μ' ↔
+      Returns Φ σ μ C (.assign (.var x) (.var y) :: ss) w μ' :=
+  Fpy.Xform.copy_prop_subst_sound hx hy σ μ C w μ'
+
+/-- constant folding of a right-hand side, given the value (PARTIAL: the analysis that supplies `h`
+statically is not modelled) -/
+theorem const_fold_assign_partial {Φ : Funs} {σ : Env} {μ : Heap} {C : Ctx} {e : Expr} {v : NV} (p : Pat) (rest : List Stmt)
+    (h : evalEω Φ σ μ C e = .ok (.num v, μ)) :
+    evalBω Φ σ μ C (.assign p e :: rest) = evalBω Φ σ μ C (.assign p (.num v) :: rest) := by
+  rw [evalBω_cons', evalBω_cons', evalSω_assign, evalSω_assign, h, evalEω_num]
+
+theorem const_fold_ret_partial {Φ : Funs} {σ : Env} {μ : Heap} {C : Ctx} {e : Expr} {v : NV} (rest : List Stmt)
+    (h : evalEω Φ σ μ C e = .ok (.num v, μ)) :
+    evalBω Φ σ μ C (.ret e :: rest) = evalBω Φ σ μ C (.ret (.num v) :: rest) := by
+  rw [evalBω_cons', evalBω_cons', evalSω_ret, evalSω_ret, h, evalEω_num]
+
+/-! ### non-vacuity -/
+
+def add (a b : Expr) : Expr := .op .add [a, b]
+def one : Expr := .num (.fv (.fin ⟨false, 0, 1⟩))
+
+/-- `return x + a`  ↦  `return y + a` is accepted after `x = y` -/
+example : simB (cpRel ["x", "y", "a"] "x" "y") [.ret (add (.var "y") (.var "a"))] [.ret (add (.var "x") (.var "a"))] = true := by
+  decide
+
+/-- F13: `y = y + 1; return x` ↦ `y = y + 1; return y` is REJECTED: the source of the copy is rebound -/
+theorem copy_prop_rejects_redefinition :
+    simB (cpRel ["x", "y"] "x" "y") [.assign (.var "y") (add (.var "y") one), .ret (.var "y")]
+      [.assign (.var "y") (add (.var "y") one), .ret (.var "x")] = false := by decide
+
+/-- … and rightly so: the two programs return different values (2 and 1 from `y = 1`) -/
+def retNum : M (Outcome × Heap) → Option NV
+  | .ok (.ret (.num a), _) => some a
+  | _ => none
+
+example : retNum (evalB ⟨[]⟩ 20 [("y", .num (.fv (.fin ⟨false, 0, 1⟩)))] [] fp64
+      [.assign (.var "x") (.var "y"), .assign (.var "y") (add (.var "y") one), .ret (.var "x")])
+    = some (.fv (.fin ⟨false, 0, 1⟩)) := by decide
+example : retNum (evalB ⟨[]⟩ 20 [("y", .num (.fv (.fin ⟨false, 0, 1⟩)))] [] fp64
+      [.assign (.var "x") (.var "y"), .assign (.var "y") (add (.var "y") one), .ret (.var "y")])
+    = some (.fv (.fin ⟨false, 0, 2⟩)) := by decide
+
+/-- the hypotheses of `copy_prop_subst_sound` and `dead_assign_elim` hold of concrete blocks -/
+example : "x" ∉ bvB [.assign (.var "z") (add (.var "x") (.var "a")), .ret (.var "z")] := by decide
+example : substB "x" "y" [.assign (.var "z") (add (.var "x") (.var "a")), .ret (.var "z")]
+    = [.assign (.var "z") (add (.var "y") (.var "a")), .ret (.var "z")] := by
+  simp [substB, renB, renS, renE, renEs, sub1, add]
+example : "t" ∉ readsB [.ret (add (.var "x") (.var "a"))] := by decide
+
 end Fpy.Props.C07
